@@ -76,5 +76,23 @@ int main(int argc, char** argv) {
         if (mine()) circle<gil::trigonometric_circle_rasterizer>("trigonometric", c.first, c.second, r);
     }
     for (int a = 0; a <= E; ++a) for (int b = 0; b <= E; ++b) if (mine()) ellipse(a, b);
+    // several shapes drawn one after the other in ONE process (large before small, repeated): an application must not depend on earlier ones
+    if (mine()) vt::isolated([&] {
+        for (int round = 0; round < 2; ++round)
+            for (int r : {2, 9, 30, 5, 0, 17, 1, 12}) {
+                { gil::midpoint_circle_rasterizer rz({r, r}, r); std::vector<gil::point_t> drawn;
+                  long o = apply_in_canary(2 * r + 1, 2 * r + 1, [&](auto& v) { gil::apply_rasterizer(v, rz, gil::gray8_pixel_t(255)); }, &drawn);
+                  J("SeqApplied").str("what", "circle/midpoint").num("arg", r).num("arg2", 0).num("outside", o).num("drawn", (long long)drawn.size()).num("count", (long long)rz.point_count()).emit(); }
+                { gil::trigonometric_circle_rasterizer rz({r, r}, r); std::vector<gil::point_t> drawn;
+                  long o = apply_in_canary(2 * r + 1, 2 * r + 1, [&](auto& v) { gil::apply_rasterizer(v, rz, gil::gray8_pixel_t(255)); }, &drawn);
+                  J("SeqApplied").str("what", "circle/trigonometric").num("arg", r).num("arg2", 0).num("outside", o).num("drawn", (long long)drawn.size()).num("count", (long long)rz.point_count()).emit(); }
+            }
+        for (auto ab : {std::pair<int,int>{12, 3}, {2, 9}, {1, 1}, {7, 7}, {3, 14}, {0, 4}}) {
+            int a = ab.first, b = ab.second;
+            gil::midpoint_ellipse_rasterizer rz({(unsigned)a + 1, (unsigned)b + 1}, {(unsigned)a, (unsigned)b}); std::vector<gil::point_t> drawn;
+            long o = apply_in_canary(2 * a + 1, 2 * b + 1, [&](auto& v) { gil::apply_rasterizer(v, rz, gil::gray8_pixel_t(255)); }, &drawn);
+            J("SeqApplied").str("what", "ellipse").num("arg", a).num("arg2", b).num("outside", o).num("drawn", (long long)drawn.size()).num("count", -1).emit();
+        }
+    }, 60);
     J("End").num("events", vt::T().events).emit(); vt::T().close(); return 0;
 }
